@@ -1015,7 +1015,7 @@ func genC14(tier string, seed uint64, n int, e *Emitter) {
 	if n == 0 {
 		n = 520
 		if tier == "thorough" {
-			n = 30000
+			n = 6000
 		}
 	}
 	// the child-key table and the ast struct shapes of the live library
@@ -1023,7 +1023,7 @@ func genC14(tier string, seed uint64, n int, e *Emitter) {
 		Coq: fmt.Sprintf("KeysCase %s %s", tb.coqKeys(), tb.coqShape()), NT: true, Tags: []string{"keys"}})
 
 	// type tracking (harness/c14ti.go)
-	genC14TypeInfo(tier, seed, n/4, tb, e)
+	c14GenTypeInfo(tier, seed, n/4, tb, e)
 
 	corpus := c14Corpus()
 	idx := uint64(0)
